@@ -1,12 +1,44 @@
-"""C01 - build definitions evaluate as the language reference prescribes (DESIGN section 2 C01)."""
+"""C01 - build definitions evaluate as the language reference prescribes (DESIGN section 2 C01).
+
+The rules live in helper modules:
+  c01_sym.py     path-wise copy propagation: normalised expression shape of a row's outcome / conditions / effects
+  c01_parser.py  R1  grammar ladder
+  c01_ops.py     R2  operator spelling chain, R3 typing tables
+  c01_eval.py    R4  evaluation order / short-circuit, R5 dispatch
+  c01_imm.py     R6  immutability (may-alias effect analysis)
+  c01_lit.py     R7  literals, R8 documented method sets
+"""
 from __future__ import annotations
 
 from ..report import Rule
 from . import c01_parser, c01_eval, c01_ops, c01_imm, c01_lit
 
-EXPLANATION = 'wip'
-ASSUMPTIONS: list = []
-TECHNIQUE = 'symbolic path summaries of the parser levels'
+EXPLANATION = (
+    'Decides structural clauses of C01 on every path of the anchored functions. '
+    'R1: each parser level e1..e10 (+statement, method_call, index_call) maps (tokens consumed) -> (tree built, by node FIELD, operands numbered in evaluation order) '
+    'exactly as the reference ladder: assignment/ternary < or < and < comparison (no chaining) < + - < * / % (left assoc.) < unary (no stacking) < call/method/index < '
+    'paren/array/dict < atoms; in_ternary is tested before, set during both arm parses and reset after; accept/accept_any/expect consume iff matched. '
+    'R2: for all 13 binary and 2 unary operators + indexing the chain source text -> lexer tables -> token id -> parser map -> node string -> operator.MAPPING -> MesonOperator '
+    '-> evaluator call (receiver/argument roles, swap exactly for in/not in) -> holder implementation is the identity on the operator meaning (held value left, container for in). '
+    'R3: the effective operator table of Integer/String/Boolean/Array/Dict/RangeHolder (supported set, operand guard) equals the reference typing table; zero test of // and %; '
+    'index errors become InvalidArguments; exact-type ==/!=; operator_call and typed_operator enforce the guard; BOOL/NOT only on booleans. '
+    'R4: and/or/ternary/if evaluate the right operand / arm / block only under the documented polarity, left before right; foreach maps Continue/BreakRequest to continue/break '
+    'around exactly the body. R5: every node class a statement position can hold has an arm in evaluate_statement, subclasses before bases, bool tested before int, '
+    'int/bool/str/list/dict registered to their holders with exact-type lookup first. R6: no method/operator/lambda of the primitive holders and no evaluator function mutates '
+    'a held value in place (may-alias analysis); held_object and self.variables have one writer; += stores a new holder; assignment deep-copies MutableInterpreterObject; '
+    'holders that change their held object carry the mutable marker. R7: escapes are decoded iff the token is single-line, the escape regex accepts exactly the list of Syntax.md, '
+    'dict.keys() is sorted. R8: registered methods of str/array/dict/int/bool equal docs/yaml/elementary/*.yml and each is argument-checked with tag-preserving wrappers. '
+    'Does NOT decide: the value a particular program yields, arithmetic on concrete numbers, .format()/f-string rendering, semantics delegated to Python str/list methods, '
+    'subdir()/subproject() scoping, and that `int` operand guards also admit Python bools (documented legacy for integers).')
+ASSUMPTIONS = [
+    'Python operators on int/str/list/dict/range and codecs unicode_escape behave as documented',
+    'callees that are not resolved inside the analysed class return fresh values (R6 may-alias analysis); unknown idioms end undecided, not violated',
+    'the reference ladder / operator / typing tables in sa/rules/c01_*.py encode Syntax.md and docs/yaml/elementary/*.yml (provenance noted at each table)',
+    'token ids are read off the folded lexer tables under the selection discipline whose shape R2 checks in Lexer.lex (specifications in list order, first match wins, single characters as fallback, keyword promotion)',
+]
+TECHNIQUE = ('decision tables by path enumeration with path-wise def-use resolution (normalised outcome/effect shapes compared with reference shapes, operands by role), '
+             'constant folding of lexer / parser / operator tables, regex-language facts (literal languages, first-character sets, alternative structure), '
+             'class-hierarchy and decorator structure, CFG reachability, may-alias effect analysis')
 
 RULES = [
     Rule('C01.R1', 'grammar ladder e1..e10: precedence, associativity, no chaining / stacking / nested ternary', c01_parser.r1),
